@@ -7,6 +7,11 @@ ALL = ["C%02d" % i for i in range(1, 21)]
 
 # id -> (level category, engine, technique, level text, level note, design ref)
 CLAIMED = {
+    "C05": ("exploration", "I",
+            "bounded-exhaustive enumeration of advertisements (structural product of optional parts, 0..3 extended providers with the main provider at every position), signer = / != provider, key types; per ad: verify, verify after DAG-JSON and DAG-CBOR round trips, 27 single-value mutations, every single-bit flip and field replacement inside every signature envelope, every assignment of signing keys {named, ad signer, unrelated} to the extended-provider entries",
+            "The specification (verify iff no signed value changed, envelopes intact, main provider listed, every entry sealed by the identity it names / the ad signer for the main entry) is evaluated on every enumerated case against the real Sign/Verify code; values that no signature covers must keep verifying. Exhaustive key assignment is what reaches the foreign-key entry case.",
+            "libp2p envelopes/crypto trusted; single-value mutations only (the payload is undelimited, as the statement says); RSA/ECDSA on a reduced shape set in the quick tier.",
+            "DESIGN.md 6/C05"),
     "C17": ("exploration", "I",
             "bounded-exhaustive enumeration of provider records (every chain-level list of <=2/3 entries over {main,X,Y} x 4 metadata kinds, every contextual list of <=2 entries, override, two contextual sets, list-length mismatches, direct and via JSON) x 6 lookups, compared with an independent specification function",
             "Every record of the stated alphabet is loaded into a real ProviderCache from a fake source and GetResults is compared result by result with a specification written from the statement; mismatched list lengths are required only not to panic. The skip/substitute/override rules interact per entry, so only the full product reaches the combinations where they differ.",
